@@ -185,15 +185,23 @@ def first_array(res):
 
 def run_cursor(case, paths, n_atoms):
     fmt = case["fmt"]
-    ai = case.get("atom_indices")
-    hs = [open_file(fmt, paths[fmt], n_atoms) for _ in range(case.get("handles", 1))]
+    nh = case.get("handles", 1)
+    # one atom selection for all handles, or one per handle ("atom_indices_h")
+    ais = case.get("atom_indices_h") or [case.get("atom_indices")] * nh
+    hs = [open_file(fmt, paths[fmt], n_atoms) for _ in range(nh)]
     outs = []
     try:
         for h, op, arg in case["ops"]:
             f = hs[h]
+            ai = ais[h]
             try:
                 signal.alarm(20)
-                if op == "read":
+                if op == "reopen":
+                    # close this handle and open the file again (the other handle stays as it is)
+                    f.close()
+                    hs[h] = open_file(fmt, paths[fmt], n_atoms)
+                    outs.append({"ok": True})
+                elif op == "read":
                     res = f.read(n_frames=arg, atom_indices=ai)
                     outs.append({"frames": frame_ids(first_array(res), UNIT[fmt]),
                                  "atoms": atom_ids(first_array(res), UNIT[fmt])})
